@@ -294,3 +294,60 @@ Proof.
   destruct f as [l k a b]. unfold roles_ok, requested_accuracy. cbn.
   intros H K. subst k. destruct a; destruct b; try discriminate. reflexivity.
 Qed.
+
+(** * From the residuals the code solves to the polynomial junction residuals (exact) *)
+(** the code's residuals are  r1 = A B - vp^2,  r2 = A/B - vm^2  with A = vpvm, B = vpovm *)
+Lemma residual_identities A B vp vm r1 r2 :
+  0 < B -> A * B = vp * vp + r1 -> A / B = vm * vm + r2 ->
+  (vp * vm - A) * (vp * vm + A) = - (vp * vp * r2 + vm * vm * r1 + r1 * r2) /\
+  (vp - vm * B) * (vp + vm * B) * (vm * vm + r2) = vp * vp * r2 - vm * vm * r1.
+Proof.
+  intros HB H1 H2.
+  assert (HA : A = (vm * vm + r2) * B) by (rewrite <- H2; field; lra).
+  split.
+  - replace ((vp * vm - A) * (vp * vm + A)) with (vp * vp * (vm * vm) - A * A) by ring.
+    replace (A * A) with ((A * B) * (vm * vm + r2)) by (rewrite HA at 2; ring).
+    rewrite H1. ring.
+  - replace ((vp - vm * B) * (vp + vm * B) * (vm * vm + r2))
+      with (vp * vp * (vm * vm + r2) - vm * vm * (B * ((vm * vm + r2) * B))) by ring.
+    rewrite <- HA. replace (B * A) with (A * B) by ring. rewrite H1. ring.
+Qed.
+
+(** * Shapes of the return paths of findMatching / findHydroBoundaries (facts extracted from
+      the AST by tools/gen_hydro_match.py; nested closures excluded) *)
+Inductive pathkind : Set :=
+  | KAssignDeton        (* vp, vm, Tp, Tm = self.matchDeton(vwTry) *)
+  | KAssignDeflag       (* vp, vm, Tp, Tm = self.matchDeflagOrHyb(vwTry, sol.root) *)
+  | KAssignFindMatching (* vp, vm, Tp, Tm = self.findMatching(vwTry) *)
+  | KRetTemplate        (* return self.template.findMatching(vwTemplate) *)
+  | KRetNames           (* return (vp, vm, Tp, Tm) *)
+  | KRetZeros           (* return (0, 0, 0, 0, 0) *)
+  | KRetNone            (* return (vp, vm, Tp, Tm, None) *)
+  | KRetBoundaries      (* return (c1, c2, Tp, Tm, velocityMid) *)
+  | KOther.             (* any other return, any other (re)definition of vp/vm/Tp/Tm *)
+Inductive hmethod : Set := MFindMatching | MFindHydroBoundaries.
+Record pathfact : Set := mk_pathfact { pf_method : hmethod; pf_line : nat; pf_kind : pathkind }.
+Definition path_ok (f : pathfact) : bool :=
+  match pf_method f, pf_kind f with
+  | MFindMatching, (KAssignDeton | KAssignDeflag | KRetTemplate | KRetNames) => true
+  | MFindHydroBoundaries, (KAssignFindMatching | KRetZeros | KRetNone | KRetBoundaries) => true
+  | _, _ => false
+  end.
+Definition has_path (m : hmethod) (k : pathkind) (l : list pathfact) : bool :=
+  existsb (fun f => match pf_method f, m with
+                    | MFindMatching, MFindMatching | MFindHydroBoundaries, MFindHydroBoundaries =>
+                        match pf_kind f, k with
+                        | KAssignDeton, KAssignDeton | KAssignDeflag, KAssignDeflag
+                        | KAssignFindMatching, KAssignFindMatching | KRetTemplate, KRetTemplate
+                        | KRetNames, KRetNames | KRetZeros, KRetZeros | KRetNone, KRetNone
+                        | KRetBoundaries, KRetBoundaries => true
+                        | _, _ => false end
+                    | _, _ => false end) l.
+(** every value findMatching returns is the result of matchDeton(vwTry), of
+    matchDeflagOrHyb(vwTry, sol.root) or of the template fallback, and findHydroBoundaries
+    builds its constants from findMatching(vwTry) only *)
+Definition paths_wellformed (l : list pathfact) : bool :=
+  forallb path_ok l && has_path MFindMatching KAssignDeton l
+  && has_path MFindMatching KAssignDeflag l && has_path MFindMatching KRetNames l
+  && has_path MFindHydroBoundaries KAssignFindMatching l
+  && has_path MFindHydroBoundaries KRetBoundaries l.
